@@ -380,6 +380,10 @@ pub fn long_cases() -> Vec<MetaCase> {
         v.push(MetaCase { segs: vec![Seg { line: L::Class, reps: 1 }, Seg { line: L::LongHeader(2100), reps: 1 }, Seg { line: L::Header(2, 2), reps: 1 }, Seg { line: L::MethodUnmapped(1), reps: 1 }], final_eol: true, crlf });
         v.push(MetaCase { segs: vec![Seg { line: L::LongHeader(64), reps: 20 }, Seg { line: L::Class, reps: 1 }, Seg { line: L::MethodMapped, reps: 1 }], final_eol: true, crlf });
     }
+    // size windows: the only line-mapped method (and the last metadata header) sits behind 17 / 33 / 65 MiB
+    for (mib, crlf) in [(17u32, false), (33, false), (33, true), (65, false)] {
+        v.push(MetaCase { segs: vec![Seg { line: L::Class, reps: 1 }, Seg { line: L::LongHeader(1024), reps: mib }, Seg { line: L::Header(2, 2), reps: 1 }, Seg { line: L::MethodMapped, reps: 1 }], final_eol: false, crlf });
+    }
     for n in [65535u32, 65536, 65537, 70000] {
         for neg in [L::MethodUnmapped(0), L::Noise(0), L::Header(3, 1), L::Class] {
             for crlf in [false, true] {
